@@ -16,7 +16,7 @@ from tools.props import c05, c05_types as T
 MANIFEST = {
     "level_text": "Coq theorems (Properties/C18.v, no axioms) over the same faithful Gallina model as C05 (parse_type_structure, visitors with the type_mappings lookup in visit_custom, Zod visitor/schema builder, add_types_prefix) for every type, table, site and mode: C18_frame (if no custom name of the parsed structure is a key of the table, all five sites in both modes print byte for byte what they print without the table), C18_render_subst (the text rendered with the table is the text of the structure in which each mapped name is replaced by its target), C18_subst_plain (at parameter/field/channel sites the text denotes the README shape with every mapped name, at any depth, replaced by its target) on the complement of the recorded classes, with a computed refutation for the namespace-prefix class. Tied to /repo on every run by rendering every enumerated type with and without every table through the real code and comparing with the extracted model string for string; the extracted relational oracle is applied to the implementation's two texts.",
     "design_ref": "DESIGN.md section 5 C18",
-    "level_note": "Proved for all inputs: frame (all sites, both modes), substitution at the unqualified TypeScript sites. Return/event sites (add_types_prefix) and Zod schema sites: substitution is machine-checked only on the model's depth-2 sweep (C18_sweep_depth2_partial, bounded) and by the run-time oracle. The clause 'N is never declared' concerns types.ts of a whole project and is NOT covered here (no project-level generation in this check); 'never referenced by name' is checked on the type text of the five sites only. Mapping keys are assumed to be custom type names as type_to_string prints them (PathBuf, DateTime<Utc>), targets in {string, number, boolean}.",
+    "level_note": "Proved for all inputs: frame (all sites, both modes), substitution at the unqualified TypeScript sites. Return/event sites (add_types_prefix) and Zod schema sites: substitution is machine-checked only on bounded sweeps of the model (C18_sweep_depth1_partial in the property file; the depth-2 sweep is coq/Proofs/C18Sweep2.v, compiled by the thorough tier, kept out of the coqchk closure) and by the run-time oracle. The two parser classes are broader than the failures (a mapped name that survives as a whole comma-separated piece is still looked up; such cases pass). The clause 'N is never declared' concerns types.ts of a whole project and is NOT covered here (no project-level generation in this check); 'never referenced by name' is checked on the type text of the five sites only. Mapping keys are assumed to be custom type names as type_to_string prints them (PathBuf, DateTime<Utc>), targets in {string, number, boolean}.",
     "technique": "Rocq/Coq proof over hand-written model + correspondence check (extracted OCaml vs Rust harness)"
 }
 
@@ -24,7 +24,7 @@ RULE = ("a case is (Rust type, mapping table, site, mode); non-trivial = the typ
         "is non-empty; distinct = distinct (type, table, site, mode). Streams: corpus (known-finding witnesses), spines "
         "(every constructor at every argument position to depth 2, leaves String,i32,PathBuf,Uuid,DateTime<Utc>,User; "
         "fillers include PathBuf) x tables (quick: full tables under 3 target rotations, a table that maps only names absent "
-        "from the type, one random table; thorough: all 64 tables over {unmapped,string,number,boolean}^3), random types to depth 6 "
+        "from the type, one random table, and for types mentioning DateTime<Utc> two tables whose key is only the head DateTime; thorough: all 64 tables over {unmapped,string,number,boolean}^3), random types to depth 6 "
         "x random tables")
 TRUSTED = [
     "Spec/C18Spec.v: token-level substitution reading of 'rendered as M' (types.N and N -> M; NSchema -> z.M()) over the lexer Spec/TsLex.v",
@@ -82,8 +82,10 @@ def names_in(t, acc=None):
 
 
 def tables_for(t, rng, thorough):
+    # a key that is only the head of a generic name must not capture DateTime<Utc> (exact-name lookup)
+    head_only = [{"DateTime": "string"}, {"DateTime": "number", "PathBuf": "boolean"}]
     if thorough:
-        return [m for m in all_tables() if m]
+        return [m for m in all_tables() if m] + head_only
     present = names_in(t)
     out = []
     for r in range(3):
@@ -94,6 +96,8 @@ def tables_for(t, rng, thorough):
     m = {n: rng.choice(TARGETS) for n in NAMES if rng.random() < 0.5}
     if m and m not in out:
         out.append(m)
+    if "DateTime<Utc>" in present:
+        out += head_only
     return out
 
 
@@ -191,6 +195,11 @@ def run(rep):
     rep.add("random", outs)
     c05.merge(stats, st)
     rep.extra["distribution"]["random"] = dict(c05.distribution(rcases), cases=len(rcases))
+    if thorough:
+        rc, out = vlib.coq_make(["Proofs/C18Sweep2.vo"], timeout=2700)
+        rep.extra["depth2_sweep_in_coq"] = "Proofs/C18Sweep2.vo compiled" if rc == 0 else "FAILED"
+        if rc != 0 and rep.proof is not None:
+            rep.proof["problems"].append("Proofs/C18Sweep2.vo (depth-2 sweep of the model) does not compile:\n" + out[-2000:])
     rep.extra["class_counts"] = stats.get("classes", {})
     rep.extra["in_class_but_property_holds"] = stats.get("in_class_but_ok", {})
     rep.extra["cases_mentioning_a_mapped_name"] = stats.get("mentions", 0)
